@@ -123,11 +123,12 @@ CHECKS = {
             {"module": "rueidis", "scenario": "cluster", "variant": "helpers", "quick": 1200, "thorough": 120000},
             {"module": "rueidis", "scenario": "cluster", "variant": "helpers2", "quick": 1000, "thorough": 100000},
             {"module": "rueidis", "scenario": "cluster", "quick": 600, "thorough": 60000},
+            {"module": "rueidis", "scenario": "helpers-single", "quick": 2500, "thorough": 200000},
         ],
-        "expected_probes": ["stable-topology"],
+        "expected_probes": ["stable-topology", "single-node-helpers"],
         "components": {"real": REAL, "stubs": STUBS},
         "assumptions": [
-            "cluster client (the single-node, standalone and sentinel clients share one code path for these helpers, which the cache scenario exercises through MGetCache only)",
+            "cluster client, and the single-node client (scenario helpers-single: all eight helpers, duplicates, missing keys, an atomic MSETNX that meets an existing key, cache enabled and disabled); the standalone and sentinel clients take the single-node client's code path for these helpers (helper.go switches on the client type) and are not run separately",
             "variant helpers2: MSet / MSetNX / JsonMSet with 1-6 entries (the library sends them in Go map order: those runs log request lengths instead of request bytes and yield identities without command text, so that the event log stays a function of the seed), JsonMGet / JsonMGetCache over preloaded documents; an existing key given to MSetNX must come back with the nil reply of its own SET NX and keep its value",
         ],
     },
